@@ -56,17 +56,20 @@ func (e *env) inAlphabet(op aclgen.Op) (aclgen.Op, bool) {
 	return op, true
 }
 
-// Known finding (see known_findings.json / proposed_fix_1.diff): applyAccountsAdd drops the
-// permission history of an account that is added again, so trees holding content it authored
-// during an earlier membership can no longer be built. While it is listed as known, exactly
-// that signature is excluded by construction: a direct add (stand-alone or inside a batch)
-// of an account that authored tree content during an earlier membership is not executed.
+// Finding 1 (proposed_fix_1.diff, fixed in /repo by 208ac24; regression TestRegReAddedAuthor):
+// applyAccountsAdd dropped the permission history of an account that is added again, so trees
+// holding content it authored during an earlier membership could no longer be built. Only
+// while the signature is listed as "known" in known_findings.json (it is not: inert) is it
+// excluded by construction: a direct add (stand-alone or inside a batch) of an account that
+// authored tree content during an earlier membership is then not executed.
 const sigReAdd = "readd-by-accounts-add-drops-permission-history"
 
-// Known finding 2 (proposed_fix_2.diff): BuildBatchRequest lays a removal (with its rotation)
-// out BEFORE the invite revokes of the same record, so the new generation is encrypted to an
-// open invite that the very same record revokes. Excluded by construction while known: the
-// revoke of a live open invite is dropped from a batch that also removes accounts.
+// Finding 2 (proposed_fix_2.diff, fixed in /repo by de402e2; regression
+// TestRegBatchRemoveRevokesOpenInvite): BuildBatchRequest laid a removal (with its rotation)
+// out BEFORE the invite revokes of the same record, so the new generation was encrypted to an
+// open invite that the very same record revokes. Excluded by construction only while listed
+// as known (inert now): the revoke of a live open invite is dropped from a batch that also
+// removes accounts.
 const sigBatchRevoke = "batch-removal-rotation-hands-new-key-to-invite-revoked-in-same-record"
 
 func (e *env) excludeKnown(op aclgen.Op) (aclgen.Op, bool, string) {
